@@ -56,6 +56,7 @@ type vsAttempt struct {
 	fileIDs   []string
 	advance   time.Duration // clock advance by the client in mid-upload
 	advAfter  int           // after this many files
+	cutClass  string        // cut-eof: where in the multipart stream the body ended
 	extended  bool          // overlapped an extended-lane fault (SQL statement failure, crash-restart): restricted oracle
 }
 
@@ -156,7 +157,7 @@ func (e *vsEnv) setup(personality int) {
 	}}
 	mux := http.NewServeMux()
 	e.app.RegisterOnMux(mux)
-	e.tr = &simTransport{r: r, s: e.s, handler: mux, nextCut: -1}
+	e.tr = &simTransport{r: r, s: e.s, handler: mux, cuts: map[string]armedCut{}, lastCutClass: map[string]string{}}
 	e.tr.chunkMax = []int{0, 0, 1, 7, 64, 1000}[e.T.Intn(6, "body-chunking")]
 	e.model = &vsModel{}
 	e.idsSeen = map[string]bool{}
@@ -240,9 +241,9 @@ func (e *vsEnv) upload(c *vsClient, a *vsAttempt) {
 		ft = fsFault{kind: "close", file: a.fault.File}
 	case "auth":
 		e.auth[c.name] = true
-	case "cut":
+	case "cut", "cut-eof":
 		e.tr.mu.Lock()
-		e.tr.nextCut = a.fault.Pos
+		e.tr.cuts[c.name] = armedCut{a.fault.Pos, a.fault.Kind == "cut-eof"}
 		e.tr.mu.Unlock()
 	}
 	e.fs.armClient(c.name, ft)
@@ -328,6 +329,12 @@ func (e *vsEnv) upload(c *vsClient, a *vsAttempt) {
 		st, a.clientErr = u.Commit()
 	}
 	a.status, a.body = c.tr.status, c.tr.body
+	if a.fault.Kind == "cut-eof" {
+		e.tr.mu.Lock()
+		a.cutClass = e.tr.lastCutClass[c.name]
+		delete(e.tr.cuts, c.name)
+		e.tr.mu.Unlock()
+	}
 	if st != nil {
 		a.id, a.fileIDs = st.UploadID, st.FileIDs
 	}
@@ -391,6 +398,9 @@ func (e *vsEnv) settle(attempts []*vsAttempt, faultsOn bool) {
 	// --- per attempt
 	for _, a := range attempts {
 		ok := a.status == 200
+		if ok && a.fault.Kind == "cut-eof" && a.cutClass != "" && a.cutClass != "after-final-delimiter" {
+			r.Fail("all-or-nothing", "cleanly-truncated-body-committed/"+a.cutClass, "%s: the request body ended early (clean EOF after %d bytes, %s) but the server committed the upload: %d %q (sent %d files)", a.client, a.fault.Pos, a.cutClass, a.status, clipS(a.body), len(a.files))
+		}
 		if ok != (a.clientErr == nil) && !a.extended {
 			r.Fail("client-view", "client-server-disagree", "%s: server answered %d %q but the client reported err=%v", a.client, a.status, clipS(a.body), a.clientErr)
 		}
@@ -423,6 +433,9 @@ func (e *vsEnv) settle(attempts []*vsAttempt, faultsOn bool) {
 			continue
 		}
 		// success
+		if a.fault.Kind == "cut-eof" && a.cutClass != "" && a.cutClass != "after-final-delimiter" {
+			r.Fail("all-or-nothing", "cleanly-truncated-body-committed/"+a.cutClass, "%s: the request body ended early (clean EOF after %d bytes, %s) but the server committed the upload: %d %q (sent %d files)", a.client, a.fault.Pos, a.cutClass, a.status, clipS(a.body), len(a.files))
+		}
 		if a.fault.Kind == "abort" {
 			r.Fail("all-or-nothing", "aborted-upload-committed", "%s: the client aborted the upload (after file %d, %d bytes into it) but the server committed it: %d %q", a.client, a.fault.File, a.fault.Pos, a.status, clipS(a.body))
 		}
@@ -747,7 +760,7 @@ func (e *vsEnv) genAttempt(faultsOn bool, force *vsFault) *vsAttempt {
 			a.fault.Pos = 1 + T.Intn(len(a.files[a.fault.File].text)+1, "abort-pos")
 		}
 	} else if faultsOn && T.Intn(3, "inject") != 0 {
-		kinds := []string{"nobench", "badfield", "abort", "cut", "create", "write", "short-write", "close", "auth"}
+		kinds := []string{"nobench", "badfield", "abort", "cut", "cut-eof", "create", "write", "short-write", "close", "auth"}
 		a.fault.Kind = sim.Pick(T, kinds, "fault-kind")
 		a.fault.File = T.Intn(nf, "fault-file")
 		switch a.fault.Kind {
@@ -757,7 +770,7 @@ func (e *vsEnv) genAttempt(faultsOn bool, force *vsFault) *vsAttempt {
 			if T.Bool("abort-mid-file") {
 				a.fault.Pos = 1 + T.Intn(len(a.files[a.fault.File].text)+1, "abort-pos")
 			}
-		case "cut":
+		case "cut", "cut-eof":
 			total := 300
 			for _, f := range a.files {
 				total += len(f.text) + 250
